@@ -474,6 +474,13 @@ def reduced_history(spec, seed, tmp, reg_events, w):
                 i = sorted(net_fixed)[0]
                 d[pubs[i]] = None
                 net_fixed.pop(i)
+            if rng.random() < 0.4:
+                # names of other models' parameters (the problem controller passes error-model names along) are
+                # no part of this model's configuration, wherever they stand in the dictionary
+                items = list(d.items())
+                items.insert(rng.randrange(len(items) + 1), ('Sigma of another model', rng.choice([None, 2.0, 0.5])))
+                d = dict(items)
+                desc.append('fix with a foreign name %r' % list(d))
             m.fix_parameters(d)
         elif k == 'rename':
             i = rng.randrange(len(pubs))
